@@ -75,7 +75,7 @@ register("C07", "props.c07", ["ValidaProofs.C07", "ValidaProofs.C07Casts"], 1000
 register("C15", "props.c15", ["ValidaProofs.C15", "ValidaProofs.C07Casts"], 1000, 25000,
          "half schema validations with 80% cast rules, half single rule tests with 90% cast rules, over documents holding castable and "
          "uncastable strings under keys of every type and list indices; distinct as C05/C06 tuples; non-trivial as there")
-register("C09", "props.c09", ["ValidaProofs.C09"], 1500, 40000,
+register("C09", "props.c09", ["ValidaProofs.C09", "ValidaProofs.C09Spec"], 1500, 40000,
          "one case = a DSL term (every class x constructor pair twice, then random leaves and trees of depth<=3) and one spelling of "
          "its spec (letter case, type/dtype len/length in/in_ eq/equal_to aliases, list vs mapping arguments, type names / map / type "
          "objects); distinct = (class, callable) pairs; non-trivial = the term has at least one non-null leaf")
@@ -91,7 +91,7 @@ register("C12", "props.c12", ["ValidaProofs.C12"], 1200, 30000,
          "one case = a path (45% of the serialisable shape: primitives and bare parts; 55% arbitrary parts, labels, modifiers) "
          "serialised, rebuilt and compared on three documents; distinct = (emitted/refused, length, concrete, has mapping spec); "
          "non-trivial = specs were emitted")
-register("C13", "props.c13", ["ValidaProofs.C13"], 600, 15000,
+register("C13", "props.c13", ["ValidaProofs.C13", "ValidaProofs.C13Schema"], 600, 15000,
          "one case = a schema of 0-4 rules in the serialisable fragment (C11 conditions, C12 paths, optional str->int / str->bool cast) "
          "through to_json_like, JSON text, from_json_like, compared by equality and by validating three documents; distinct = "
          "(#rules, casts?, longest path); non-trivial = at least one rule")
